@@ -22,7 +22,7 @@ import RV.Base.Proto
     len c                      -> __len__(context)   (`*` = no context)
     ctxs                       -> contexts(): known graph names, sorted
     tctx s p o                 -> contexts(triple), sorted
-    bound                      -> are the Graph objects handed out by contexts() / by triples() bound to the wrapper: 1 1
+    bound                      -> one bit per Source (XModel.lean): are the Graph objects that read hands out bound to the wrapper
     ns                         -> the two binding dictionaries: p=n … | n=p …  (sorted)
     log w                      -> length of wrapper w's reverseOps (diagnostic)
 -/
@@ -177,9 +177,8 @@ def step (s : DS) : List String → DS × String
     | some a, some b, some c => (s, showNats (sortNats (memContexts s.m (some (a, b, c)))))
     | _, _, _ => (s, "bad-op")
   | ["bound"] =>
-    let a := (handOutContexts s.m none).all (fun h => h.2 == Bound.wrapper)
-    let b := (handOutTriples s.m.cur (none, none, none, none)).all (fun tc => tc.2.all (fun h => h.2 == Bound.wrapper))
-    (s, (if a then "1" else "0") ++ " " ++ (if b then "1" else "0"))
+    let x : XW := ⟨s.m, []⟩
+    (s, " ".intercalate (Source.all.map (fun src => if (handOut x src).all (fun h => h.2 == Bound.wrapper) then "1" else "0")))
   | ["ns"] => (s, showPairs s.m.b.ns ++ " | " ++ showPairs s.m.b.pf)
   | ["log", w] =>
     match wsel? w with
